@@ -163,6 +163,46 @@ fn item_chroma_sweep(i: u64, sweep_cr: bool, acc: &mut Acc) {
     acc.count_n(ch as u64, ch as u64);
 }
 
+/// The value of a pixel depends on its own triple only: small pictures whose planes are assembled
+/// from a few repeated row templates over one-to-three-value alphabets (black level, mid-grey,
+/// clamping values, ...), so that equal groups, equal rows, Cb rows equal to Cr rows and special
+/// values sit next to different ones; every pixel is compared with the model of its own triple.
+fn context_case(g: &mut crate::gen::Gen) -> Verdict {
+    let w = if g.chance(1, 3) { g.range(1, 9) } else { g.range(4, 40) } as usize;
+    let h = g.range(1, 10) as usize;
+    let mut src = || g.byte();
+    let (y, cb, cr) = super::c08::planes(w, h, 4, &mut src);
+    g.describe(|| json!({"w": w, "h": h, "y": y, "cb": cb, "cr": cr}));
+    match super::c08::check_picture_at(w, &y, &cb, &cr, (0, 0, 0)) {
+        Err(m) => Verdict::fail(m),
+        Ok(()) => {
+            let cw = (w + 1) / 2;
+            // non-trivial: some group of four equals its left neighbour in luma, or two luma rows are equal
+            let mut l: Labels = Vec::new();
+            let equal_groups = (0..h).any(|r| (1..w / 4).any(|k| y[r * w + 4 * k..r * w + 4 * k + 4] == y[r * w + 4 * k - 4..r * w + 4 * k]));
+            let equal_rows = (1..h).any(|r| y[r * w..(r + 1) * w] == y[(r - 1) * w..r * w]);
+            let cb_is_cr_row = (0..(h + 1) / 2).any(|r| cb[r * cw..(r + 1) * cw] == cr[r * cw..(r + 1) * cw]);
+            let grey = cb.iter().zip(cr.iter()).any(|(b, r)| *b == 128 && *r == 128);
+            if equal_groups {
+                l.push("equal neighbouring luma groups");
+            }
+            if equal_rows {
+                l.push("equal neighbouring luma rows");
+            }
+            if cb_is_cr_row {
+                l.push("a Cb row equal to the Cr row");
+            }
+            if grey {
+                l.push("colourless samples (Cb = Cr = 128)");
+            }
+            let mut key = crate::bits::fnv64(&y);
+            key = crate::bits::fnv64_extend(key, &cb);
+            key = crate::bits::fnv64_extend(key, &cr);
+            Verdict::pass_l(equal_groups || equal_rows, key ^ ((w as u64) << 50), l)
+        }
+    }
+}
+
 pub fn run(ctx: &Ctx) -> i32 {
     let mut reports = vec![super::regression_suite(ctx)];
     // coefficient sanity: the recomputed constants must be the documented ones
@@ -178,13 +218,14 @@ pub fn run(ctx: &Ctx) -> i32 {
     reports.push(exhaustive_suite(ctx, "cr_sweep_monotone", 65536, &|i, acc| item_chroma_sweep(i, true, acc)));
     reports.push(exhaustive_suite(ctx, "cb_sweep_monotone", 65536, &|i, acc| item_chroma_sweep(i, false, acc)));
     let exhaustive = reports.iter().skip(1).all(|r| r.exhaustive);
+    reports.push(tape_suite(ctx, "triples_among_repeating_neighbours", ctx.tier.pick(150_000, 2_000_000), 700, &context_case));
     let mut extra = Map::new();
     extra.insert("domain".into(), json!("all 2^24 (Y,Cb,Cr) triples in each of 4 vector lanes and 3 remainder lanes; all triples again in Cb- and Cr-sweeps"));
     finish(
         ctx,
         reports,
         Summary {
-            rule: "Enumerated: for every (Cb,Cr) a 7x256 picture carries every Y in every pixel column (4 vector lanes + 3 remainder lanes), so each of the 2^24 triples is converted 7 times; distinct_nontrivial counts each triple once per suite (every triple is non-trivial). Oracle: 16.16 integer BT.601 model with constants recomputed from the definitions, |out - real formula| <= 1, alpha = 255, monotonicity along Y / Cb / Cr checked on the implementation's output.",
+            rule: "Enumerated: for every (Cb,Cr) a 7x256 picture carries every Y in every pixel column (4 vector lanes + 3 remainder lanes), so each of the 2^24 triples is converted 7 times; distinct_nontrivial counts each triple once per suite (every triple is non-trivial). Oracle: 16.16 integer BT.601 model with constants recomputed from the definitions, |out - real formula| <= 1, alpha = 255, monotonicity along Y / Cb / Cr checked on the implementation's output. triples_among_repeating_neighbours (generated, not part of the completeness claim) converts small pictures full of equal neighbouring groups / rows / planes and special values and compares every pixel with the model of its own triple: the result may depend on nothing else.",
             assumptions: vec!["little-endian target (the crate's big-endian branch is not compiled here)".into()],
             exhaustive,
             extra,
@@ -205,6 +246,11 @@ pub fn replay(suite: &str, case: &Value) -> Option<Verdict> {
             let sweep_cr = suite == "cr_sweep_monotone";
             let other = if sweep_cr { case["cb"].as_u64()? } else { case["cr"].as_u64()? };
             item_chroma_sweep(y << 8 | other, sweep_cr, &mut acc);
+        }
+        "triples_among_repeating_neighbours" => {
+            let tape = super::tape_of(case)?;
+            let mut g = crate::gen::Gen::new(&tape);
+            return Some(context_case(&mut g));
         }
         _ => return None,
     }
